@@ -12,6 +12,7 @@
 mod argvgen;
 mod c02;
 mod c13;
+mod c14;
 mod driver;
 mod findings;
 mod names;
